@@ -116,6 +116,7 @@ def run(tier, seed):
     # rates agreed at a stop (or between two runs) for resources that have not worked yet
     col.merge(stepcheck.explore(stepcheck.resumed_edit_items(("set-rates",), ks=(1, 2, 3, 4)) + stepcheck.edited_items(names=("set-rates",)), MONS, 0, 0, seed=seed))
     col.merge(stepcheck.explore(F.scale_items(("TSLACK",)), MONS, 0, 0, seed=seed))  # medium-sized models (10-14 tasks / workers / machines), long absence lists
+    col.merge(stepcheck.explore(F.extra_items(("TSLACK",), calendars=True), MONS, 0, 0, seed=seed))  # other ways of building the object graph; continuations under a revised calendar
     meta = {
         "level": "model_checking",
         "rule": "FS workflows on 3 tasks x all cost-rate triples over {0,1,2.5} in two teams plus an empty team (runs to completion and runs cut by max_time=2 -> FAILURE) "
